@@ -92,6 +92,8 @@ def run_behaviours(behs, geom="tiny", workers=12, tag="run"):
 
 def _strip(e):
     """Events as TLC sees them (proj and free-form fields removed to keep parsing cheap)."""
+    if e.get("ev") == "note":
+        return {"ev": "note"}          # notes of the harness carry no obligation (and free-form payloads)
     return {k: v for k, v in e.items() if k not in ("proj", "kind", "backend", "fsync", "geom", "file", "what", "n_beh")}
 
 
